@@ -5,7 +5,8 @@
     (run query|mutation (<field>…) (<mask>…))
       field := (f <key> true|false sync|promise|pre|meta none|(e "<msg>") <comp>)
       comp  := null | (s "<json leaf>") | (bad "<msg>") | (list true|false <comp>…) | (obj <field>…)
-    → (out "<data json>" ((err "<path json>" "<msg>")…) <idle rounds> <promises created> ((ev start|fulfil "<path json>")…))
+    → (out "<data json>" ((err "<path json>" "<msg>")…) <idle rounds> <promises created> ((ev start|fulfil "<path json>")…)
+           (spec "<Spec.data>" (<Spec.required errors>) (<Spec.errsF errors>)))
 
   combinator level
     (comb <term> (<step>…))
@@ -18,6 +19,7 @@
 import ApiFu.Common.Sexp
 import ApiFu.Common.Loop
 import ApiFu.C02.Model
+import ApiFu.C02.Spec
 
 open ApiFu ApiFu.C02
 
@@ -67,17 +69,24 @@ def eventsOf : List Entry → List Sexp
   | .fulfil p :: rest => Sexp.node "ev" [.atom "fulfil", .atom (pathText p)] :: eventsOf rest
   | _ :: rest => eventsOf rest
 
-def outSexp (o : Outcome) : Sexp :=
+def errSexp (e : Err) : Sexp := Sexp.node "err" [.atom (pathText e.path), .atom e.msg]
+
+/-- The reply also carries the reference semantics of the request (`Spec.data`, `Spec.required`,
+    `Spec.errsF`), so that the harness checks the specification itself against the implementation. -/
+def outSexp (rq : Request) (o : Outcome) : Sexp :=
   Sexp.node "out" [
     .atom (if o.crash then "CRASH" else o.data),
-    .list (o.errors.map fun e => Sexp.node "err" [.atom (pathText e.path), .atom e.msg]),
-    Sexp.ofNat o.rounds, Sexp.ofNat o.promises, .list (eventsOf o.log)]
+    .list (o.errors.map errSexp),
+    Sexp.ofNat o.rounds, Sexp.ofNat o.promises, .list (eventsOf o.log),
+    Sexp.node "spec" [.atom (Spec.data rq), .list ((Spec.required rq).map errSexp),
+      .list ((Spec.errsF rq.fields []).map errSexp)]]
 
 def handleRun (kind : String) (fields : List Sexp) (sched : List Sexp) : Option Sexp := do
   let fields ← fields.mapM parseField
   let sched ← sched.mapM Sexp.nat?
   let mutation ← (match kind with | "query" => some false | "mutation" => some true | _ => none)
-  pure (outSexp (run { mutation := mutation, fields := fields, sched := sched }))
+  let rq : Request := { mutation := mutation, fields := fields, sched := sched }
+  pure (outSexp rq (run rq))
 
 /-! combinator level -/
 
